@@ -10,7 +10,7 @@ import subprocess
 import sys
 import time
 
-V = os.environ.get('VERIF_ROOT', '/verif')
+V = os.environ.get('VERIF_ROOT') or os.path.dirname(os.path.dirname(os.path.abspath(__file__)))
 COQ = V + '/coq'
 CACHE = V + '/.cache'
 HARNESS = V + '/harness'
